@@ -929,3 +929,59 @@ Proof.
   intros G R N. pose proof (multi_no_nil_deref ms0 ts0 sched k G R) as U. pose proof (multi_chk_clear ms0 ts0 sched G N) as C.
   destruct (mrun sched (ms0, ts0)) as [ms ts]. cbn [fst] in C. auto.
 Qed.
+
+(* ---- exactly which steps set ms_bad ---- *)
+Definition bad_cause (ms : mshared) (t : mthread) : bool :=
+  match m_pc t with
+  | MRun =>
+      (* a second extension of the file by the lookups of one thread *)
+      let u := gett t (m_role t) (m_c t) in
+      let u' := snd (step_thread np0 (proj (m_c t) ms) u) in
+      pc_is (t_pc u) LLook2 && pc_is (t_pc u') GIvLoad && m_grown t
+  | MHead =>
+      (* the nested walk loads the list and the counter whose lookup extended the
+         file is not on it: an Add on a counter another goroutine is still registering *)
+      match m_walks t with
+      | w :: _ => match w_own w with Some (_, c) => negb (memn c (ms_list ms)) | None => false end
+      | [] => false
+      end
+  | _ => false
+  end.
+
+Lemma core_bad ms t ms' t' : mstep_core ms t = (ms', t') -> ms_bad ms' = ms_bad ms || bad_cause ms t.
+Proof.
+  intros H. unfold mstep_core in H. unfold bad_cause. destruct (m_pc t).
+  - destruct (m_isadd t); injection H as <- <-; cbn; rewrite orb_false_r; reflexivity.
+  - destruct (claimed ms (m_k t)); injection H as <- <-; cbn; rewrite orb_false_r; reflexivity.
+  - injection H as <- <-; cbn; rewrite orb_false_r; reflexivity.
+  - destruct (m_wrote t); [|destruct (claimed ms (m_k t))]; injection H as <- <-; cbn; rewrite orb_false_r; reflexivity.
+  - destruct (onat_eqb _ _); injection H as <- <-; cbn; rewrite orb_false_r; reflexivity.
+  - injection H as <- <-; cbn; rewrite orb_false_r; reflexivity.
+  - injection H as <- <-; cbn; rewrite orb_false_r; reflexivity.
+  - injection H as <- <-; cbn; rewrite orb_false_r; reflexivity.
+  - cbv zeta in H |- *. destruct (step_thread np0 _ _) as [s' u']. cbn [snd].
+    destruct (pc_is _ LLook2 && pc_is (t_pc u') GIvLoad) eqn:Eg.
+    + destruct (m_grown t); cbn [andb] in H |- *; injection H as <- <-; cbn; rewrite ?orb_false_r; reflexivity.
+    + cbn [andb] in H |- *.
+      destruct (m_walks t); [destruct (pc_is (t_pc u') Done); [destruct (m_role t)|]|destruct (visit_ended _ _ _)];
+        injection H as <- <-; cbn; rewrite orb_false_r; reflexivity.
+  - injection H as <- <-. cbn. rewrite orb_false_r; reflexivity.
+  - injection H as <- <-; cbn; rewrite orb_false_r; reflexivity.
+  - destruct (m_walks t) as [|w ws]; [injection H as <- <-; cbn; rewrite orb_false_r; reflexivity|].
+    cbv zeta in H. injection H as <- <-. cbn. destruct (w_own w) as [[r c]|]; reflexivity.
+  - injection H as <- <-; cbn; rewrite orb_false_r; reflexivity.
+  - destruct (m_walks t) as [|w ws]; [injection H as <- <-; cbn; rewrite orb_false_r; reflexivity|].
+    destruct (w_own w) as [[r c]|].
+    + destruct (step_thread np0 _ _) as [s' u']. injection H as <- <-. cbn. rewrite orb_false_r; reflexivity.
+    + destruct (m_prev t); injection H as <- <-; cbn; rewrite orb_false_r; reflexivity.
+  - injection H as <- <-; cbn; rewrite orb_false_r; reflexivity.
+Qed.
+
+(* ms_bad is set by exactly these steps *)
+Theorem mstep_bad st i :
+  ms_bad (fst (mstep st i)) =
+  ms_bad (fst st) || match nth_error (snd st) i with Some t => bad_cause (fst st) t | None => false end.
+Proof.
+  destruct st as [ms ts]. cbn [fst snd]. unfold mstep. destruct (nth_error ts i) as [t|]; [|cbn; rewrite orb_false_r; reflexivity].
+  unfold mstep_thread. destruct (mstep_core ms t) as [ms1 t1] eqn:Hc. cbn [fst snd set_chk ms_bad]. exact (core_bad _ _ _ _ Hc).
+Qed.
